@@ -131,6 +131,7 @@ func genC09Case() *rapid.Generator[C09Case] {
 
 func runC09(c C09Case, tolerate bool) *fOutcome {
 	out := newFOutcome()
+	defer c08Release()
 	route := c.Route
 	routes := []AuthRoute{route}
 	w, err := newFrontWorld(c09Text(route, ""), worldOpts{withFile: true, faults: true})
